@@ -74,6 +74,11 @@ CLAIMED = {
          'model dumps equal, stream lengths equal, altered level stamp / non-empty pool / short stream rejected with XSerializationException.',
          'Same-build round trips only; instance validity itself is not modelled (differential); 1 known finding excluded.',
          '3 C16'),
+ 'C17': ('ThreadSanitizer (+ASan pass) on Hypothesis-generated N-thread workloads from a cold start, fresh process per case, per-thread result digests vs single-threaded re-run',
+         'N in {2..16} threads run generated lists of parse (private parser / shared locked pool), DOM build+serialise, regex with category escapes, transcoding, object create/destroy and message loading '
+         'with no main-thread warm-up; no TSan report with a Xerces frame, no crash, every digest equals the sequential re-run, hangs need 3/3 replays.',
+         'Happens-before detection only for instrumented code (ICU/curl are not); schedules are perturbed by seeded yields, not enumerated; 4 known races excluded by warm-up and counted.',
+         '3 C17'),
  'C18': ('fault enumeration + PBT: recording MemoryManager (ledger) with the handler-exception point k and the abandon point j enumerated exhaustively per document; lifecycle scripts in fresh processes',
          'Every parser class on a ledger manager x documents (valid, malformed, invalid) x endings (normal, fatal, exception at EVERY k-th callback up to kmax, progressive parse abandoned at every step) x '
          'lifetime scripts (reuse, adopt/release order, pools, two ledgers): no foreign/repeated pointer, nothing outstanding; balanced Initialize/Terminate nestings leave the global ledger empty, same workload digest, LSan silent.',
